@@ -4,6 +4,7 @@
        events: C it | G <cfg> | S <cfg> | F f | R it0
    VEL dt n (t x)*                     -> hex values of v_<name>
    RUNAVE L stride it0 n (t x)*        -> "t av var sd ; ..."
+   RUNAVEV kind [period] L stride it0 dim n (t x{dim})* -> "t av,av,.. var sd ; ..."
    ACF type normalize len stride off dim n (t self{dim} other{dim})*  -> "nframes | lag val ; ..." *)
 open Model
 open X_fops
@@ -85,6 +86,14 @@ let () =
            let r = runave_run fops l stride it0 r0 None h in
            Printf.printf "%s\n" (String.concat " ; " (List.map (fun (((t, av), var), sd) ->
                Printf.sprintf "%d %s %s %s" (int_of_nat t) (hex av) (hex var) (hex sd)) r))
+         | "RUNAVEV" ->
+           let kind = (match next () with
+               | "scalar" -> KScalar | "periodic" -> let p = nf () in KPeriodic (p, 0.0) | "vector3" -> KVector3 | _ -> KUnit3) in
+           let l = nn () in let stride = nn () in let it0 = nn () in let dim = ni () in let n = ni () in
+           let h = List.init n (fun _ -> let t = nn () in let x = List.init dim (fun _ -> nf ()) in (t, x)) in
+           let r = runaveV_run fops (lv_ops fops kind) l stride it0 rv0 None h in
+           Printf.printf "%s\n" (String.concat " ; " (List.map (fun (((t, av), var), sd) ->
+               Printf.sprintf "%d %s %s %s" (int_of_nat t) (String.concat "," (List.map hex av)) (hex var) (hex sd)) r))
          | "ACF" ->
            let ty = (match next () with "velocity" -> AcfVel | "coordinate" -> AcfCoor | _ -> AcfP2) in
            let norm = nb () in let len = nn () in let stride = nn () in let off = nn () in
